@@ -224,3 +224,90 @@ Section Decide.
         end
     end.
 End Decide.
+
+(* ---- idr/jsonreader.go parse(), one token ---------------------------------------------------------------- *)
+Section Json.
+  Variable pm : list name -> bool.
+  Variable pred : tree -> bool.
+  Variable has_filter old_check : bool.
+  Variable caching : bool.
+  Variable choose : st -> choice.
+
+  (* addTextChild: child := CreateJSONNode(TextNode, data, jtype); AddChild(sp.cur, child) *)
+  Definition new_text (r : rd) (txt : tree) : option rd :=
+    new_child caching choose r (t_type txt) (t_data txt) (t_fs txt) false.
+  (* addElementChild *)
+  Definition new_elem (r : rd) (data : bytes) (flags : N) : option rd :=
+    new_child caching choose r ElementNode data (FJson flags) true.
+  (* sp.cur.FormatSpecific = JSONTypeOf(sp.cur) | bit *)
+  Definition or_cur (r : rd) (cur : frame) (bit : N) : option rd := set_cur_fs r (f_fs (jor bit cur)).
+
+  Definition hj_token (st : Stream.state) (r : rd) (tk : jtoken) : option rd :=
+    match s_stack st with
+    | [] => Some r
+    | cur :: _ =>
+        match tk with
+        | JOpenObj =>
+            if jflag J_ARR cur then new_elem r [] J_OBJ
+            else if jflag J_PROP cur then or_cur r cur J_OBJ
+            else if jflag J_ROOT cur then or_cur r cur J_OBJ
+            else Some r
+        | JOpenArr =>
+            if jflag J_ARR cur then new_elem r [] J_ARR
+            else if jflag J_PROP cur then or_cur r cur J_ARR
+            else if jflag J_ROOT cur then or_cur r cur J_ARR
+            else Some r
+        | JCloseObj | JCloseArr => h_wrap_up pm pred has_filter old_check caching st r
+        | _ =>
+            match jtext tk with
+            | None => Some r
+            | Some txt =>
+                if jflag J_OBJ cur then
+                  match tk with
+                  | JStrT s => new_elem r s J_PROP
+                  | _ => Some r
+                  end
+                else if jflag J_ARR cur then
+                  obnd (new_elem r [] J_PROP) (fun r1 =>
+                  obnd (new_text r1 txt) (fun r2 =>
+                  h_wrap_up pm pred has_filter old_check caching
+                    (add_text (candidate_check pm (Stream.push (mkF ElementNode [] (FJson J_PROP) []) st)) txt) r2))
+                else if jflag J_PROP cur then
+                  obnd (new_text r txt) (fun r1 =>
+                  h_wrap_up pm pred has_filter old_check caching (add_text st txt) r1)
+                else if jflag J_ROOT cur then
+                  obnd (new_text r txt) (fun r1 =>
+                  h_wrap_up pm pred has_filter old_check caching (add_text (candidate_check pm st) txt) r1)
+                else Some r
+            end
+        end
+    end.
+
+  Fixpoint hj_run (st : Stream.state) (r : rd) (rel : list bool) (toks : list jtoken)
+    : option (rd * list (mach * atree)) :=
+    match toks with
+    | [] => Some (r, [])
+    | tk :: rest =>
+        match jstep pm pred has_filter old_check st tk with
+        | RPanic | RErr => Some (r, [])
+        | RCont st' => obnd (hj_token st r tk) (fun r' => hj_run st' r' rel rest)
+        | RDeliver t n st' =>
+            obnd (hj_token st r tk) (fun r' =>
+            match (match r_stack r' with
+                   | [] => r_done r'
+                   | (_, ks) :: _ => match rev ks with k :: _ => Some k | [] => None end
+                   end) with
+            | None => None
+            | Some ta =>
+                match (match (if hd false rel then release st' else Some st') with
+                       | Some s => read_prologue s | None => None end) with
+                | None => Some (r', [(r_m r', ta)])
+                | Some st2 =>
+                    obnd (remove_last caching r') (fun r2 =>
+                    obnd (hj_run st2 r2 (tl rel) rest) (fun res =>
+                    Some (fst res, (r_m r', ta) :: snd res)))
+                end
+            end)
+        end
+    end.
+End Json.
